@@ -316,7 +316,7 @@ func (fc *FnCtx) solveAll(o solveOpts, tag string) {
 			undecided[ob] = true
 		}
 	}
-	if n := len(undecided); n > 0 && n <= 3 {
+	if n := len(undecided); n > 0 && n <= 8 { // was 3: on a loaded machine a heavy function (storage.finalizeTransaction) has 4-6 quick-tier timeouts that all pass in the retry tier
 		attempt(o.retryS, o.seed+7919, undecided)
 	}
 }
